@@ -37,6 +37,21 @@ def with_route(check):
     return routed
 
 
+# Inputs the library refuses loudly and by design (an explicit NotImplementedError naming the combination) are outside every
+# property's domain: a refusal is not a result.  They are counted, never reported - and never folded into "held" either.
+DECLARED_UNSUPPORTED = ["NotImplementedError: masking with a stepped slicer and chunked group keys is not supported"]
+
+
+def drop_declared_unsupported(fails, counters):
+    kept = []
+    for f in fails:
+        if any(u in str(f.get("detail", "")) for u in DECLARED_UNSUPPORTED):
+            counters["declared_unsupported_refusals"] += 1
+        else:
+            kept.append(f)
+    return kept
+
+
 class Ctx:
     def __init__(self, args, outdir):
         self.prop = args.prop
@@ -87,6 +102,7 @@ class Ctx:
         try:
             fails = list(check(case, self) or [])
             fails += lib.drain_side_failures()
+            fails = drop_declared_unsupported(fails, self.counters)
         except Exception:
             self.harness_errors.append({"index": self.index, "trace": traceback.format_exc()[-3000:], "case": case})
             fails = []
@@ -188,7 +204,7 @@ def main():
         with open(args.replay) as f:
             rec = json.load(f)
         case = rec["case"] if "case" in rec else rec
-        fails = list(with_route(mod.check)(case, ctx) or []) + lib.drain_side_failures()
+        fails = drop_declared_unsupported(list(with_route(mod.check)(case, ctx) or []) + lib.drain_side_failures(), ctx.counters)
         want = rec.get("monitor")
         hit = [f for f in fails if want is None or f["monitor"] == want]
         print(json.dumps({"replay_failures": fails}, default=str))
